@@ -359,7 +359,8 @@ Prop_C16(S) == IsOrbiterPacket(S) /\ S.in.dn # "L" =>
 Prop_C20(S) == S.in.t = "ident" =>
   LET R == S.idres  pid == S.in.pid IN
   /\ \A i \in DOMAIN R : LET e == R[i] IN
-        /\ (pid \in {"CCTP", "HYP"} /\ (e.pauseOk \/ e.queryOk \/ e.genesisOk \/ e.statsOk \/ e.newOk) => CanonU32(e.chars))
+        /\ (pid \in {"CCTP", "HYP"} /\ (e.pauseOk \/ e.queryOk \/ e.genesisOk \/ e.statsOk \/ e.newOk
+                                           \/ e.batchFirstOk \/ e.batchMidOk) => CanonU32(e.chars))   \* in any batch position
         /\ (e.newOk => e.parseOk /\ e.parsePid = pid /\ e.parseCp = e.cp)       \* Parse(ID(pair)) = pair
         /\ (e.pauseOk /\ e.probeRun /\ e.ctlOk => ~e.probeOk)                  \* a successful pause covers what it names
         /\ (e.pauseOk => e.unpauseOk)
